@@ -93,6 +93,13 @@ def spaces(tier, seed):
 # ----------------------------------------------------------------------------------------------
 # level (i)
 # ----------------------------------------------------------------------------------------------
+def _msg(exc):
+    """exception text without memory addresses (details must be reproducible)"""
+    import re  # pylint: disable=import-outside-toplevel
+
+    return re.sub(r"0x[0-9a-fA-F]+", "0x..", str(exc))[:200]
+
+
 def _method(name):
     from pandora import refinement  # pylint: disable=import-outside-toplevel
 
@@ -206,7 +213,6 @@ def compare(site, method, measure, subpix, costs, disps, b_disp, b_flags, a_disp
             seen.add(key)
             viol.append({"clause": clause, "key": key, "detail": detail})
 
-    nd = len(disps)
     d_min, d_max = float(disps[0]), float(disps[-1])
     exp = R.expected_map(costs, b_disp, b_flags, d_min, subpix, measure, method)
     cls = exp["cls"]
@@ -353,7 +359,7 @@ def refine_checked(site, method, measure, subpix, costs, disps, disp, flags):
             r, c = w[0]
             wit = f" e.g. pixel ({r},{c}) costs={costs[r, c].tolist()} disp={disp[r, c]} flag={flags[r, c]}"
         viol.append({"clause": "totality", "key": f"C06/totality/{site}({method})/{type(err).__name__}/{cls}",
-                     "detail": f"subpixel_refinement raised {type(err).__name__}: {str(err)[:200]} on a {costs.shape} "
+                     "detail": f"subpixel_refinement raised {type(err).__name__}: {_msg(err)} on a {costs.shape} "
                                f"volume, axis {list(map(float, disps))}, {measure}{wit}"})
         if not (flat | off).any():
             return {"viol": viol, "hist": None, "dig": None, "out": None, "neutral": None}
@@ -452,7 +458,7 @@ def run_single(case):
                 ecls = R.exception_class(costs[i:i + 1, j:j + 1], disp[i:i + 1, j:j + 1], flags[i:i + 1, j:j + 1],
                                          float(disps[0]), subpix, measure, method)
                 bad("totality", f"{type(e).__name__}/" + (ecls if ecls != "no flat triple" else cname),
-                    f"{what}: subpixel_refinement raised {type(e).__name__}: {str(e)[:160]}")
+                    f"{what}: subpixel_refinement raised {type(e).__name__}: {_msg(e)}")
                 trivial += 1
                 continue
             if res["out"] is None or res["neutral"][i, j]:
@@ -499,6 +505,9 @@ def run_case(case):
 
 
 def init_worker():
+    """JIT warm-up: one tiny call per (method, axis type); loop_refinement takes a function argument and is not cached"""
     for m in ("vfit", "quadratic"):
         for sp in (1, 2):
-            run_single({"kind": "single", "nd": 3, "subpix": sp, "measure": "min", "method": m, "flag": 1, "dmin": 0})
+            disps = axis(0, 3, sp)
+            refine_checked("subpixel_refinement", m, "min", sp, np.array([[[2, 1, 3]]], dtype=np.float32), disps,
+                           np.array([[disps[1]]], dtype=np.float32), np.array([[0]], dtype=np.uint16))
